@@ -272,12 +272,73 @@ pub fn gen(rng: &mut Rng, thorough: bool, out: &mut Sink) {
             // nothing one tokenizer does may show in another
             crate::enc::c18_spice(rng, &mut def);
         }
+        if d % 4 == 3 {
+            // each model kind in turn (the exports of the three kinds are three different functions)
+            for _ in 0..12 {
+                let want = (d / 4) % 3;
+                let is = match &def.model {
+                    Model::WordPiece { .. } => 0,
+                    Model::Unigram { .. } => 1,
+                    _ => 2,
+                };
+                if is == want {
+                    break;
+                }
+                def = crate::enc::gen_full_definition(rng, false, false);
+            }
+            // two vocabulary entries that share an id: whatever orders entries by id needs a further key, or the
+            // order of the export comes from a hash map
+            match &mut def.model {
+                Model::BytePair { vocab, .. } | Model::Unigram { vocab, .. } | Model::WordPiece { vocab, .. } => {
+                    if vocab.len() >= 3 {
+                        let a = vocab[0].id;
+                        let k = rng.range(1, vocab.len() - 1);
+                        vocab[k].id = a;
+                        for _ in 0..3 {
+                            let k2 = rng.range(1, vocab.len() - 1);
+                            vocab[k2].id = a;
+                        }
+                    }
+                }
+                #[allow(unreachable_patterns)]
+                _ => {}
+            }
+        }
         let mut lines = Vec::new();
         let tk = load(slot, "generated", def, &mut lines);
         slot += 1;
         if tk.tok.is_none() {
             out.group(lines);
             continue;
+        }
+        // the export of several tokenizers built from this definition, here and in a fresh process: one answer
+        {
+            let export_of = |def: &Definition| match guarded(|| Kitoken::from_definition(def.clone()).map(|t| t.to_definition().to_vec())) {
+                Some(Ok(b)) => format!("{:016x}", fnv(&b)),
+                Some(Err(_)) => "ERR init".to_string(),
+                None => "PANIC".to_string(),
+            };
+            let first = export_of(&tk.def);
+            let differs = (0..6).any(|_| export_of(&tk.def) != first);
+            let p = std::env::current_dir().unwrap().join(format!("c19_exp_{}.kit", d));
+            let bytes = tk.def.to_vec();
+            let fresh = if std::fs::write(&p, &bytes).is_ok() {
+                let o = child(&exe, &["conv".into(), p.to_string_lossy().to_string()]);
+                let _ = std::fs::remove_file(&p);
+                o
+            } else {
+                String::new()
+            };
+            let own = format!("{:016x} {} {}", fnv(&bytes), bytes.len(), first);
+            let verdict = if differs {
+                "DIFF tokenizers built from one definition in one process export different definitions".to_string()
+            } else if fresh != own {
+                format!("DIFF this-process=[{}] fresh-process=[{}]", own, fresh)
+            } else {
+                "OK".to_string()
+            };
+            lines.push(format!("IMPLEQ export-generated generated{} {} :: {}", d, hex(&bytes[..bytes.len().min(3000)]), verdict));
+            out.count("generated_exports_compared");
         }
         let texts: Vec<String> = (0..(if thorough { 24 } else { 12 })).map(|_| crate::enc::text_for_pub(rng, &tk.def)).collect();
         histories_and_threads(rng, &tk, &texts, true, thread_counts[d % thread_counts.len()], out, &mut lines);
